@@ -267,10 +267,10 @@ func (r *SortReg) rangeFact(term string, t types.Type, depth int) string {
 		return "(and " + strings.Join(parts, " ") + ")"
 	case *types.Slice:
 		s := r.sortOf(t)
-		return fmt.Sprintf("(>= (len_%s %s) 0)", s, term)
+		return fmt.Sprintf("(and (>= (len_%s %s) 0) (<= (len_%s %s) 9223372036854775807))", s, term, s, term)
 	case *types.Map:
 		s := r.sortOf(t)
-		return fmt.Sprintf("(>= (card_%s %s) 0)", s, term)
+		return fmt.Sprintf("(and (>= (card_%s %s) 0) (<= (card_%s %s) 9223372036854775807))", s, term, s, term)
 	}
 	return ""
 }
